@@ -13,7 +13,22 @@ import props.c12 as c12  # noqa: E402
 
 ID = "C13"
 LEAN_IMPORTS = ["PyTrie.Props.C13"]
-THEOREMS = []
+THEOREMS = [
+    "PyTrie.Props.C13.branch_refusal",
+    "PyTrie.Props.C13.branch_refusal_iff",
+    "PyTrie.Props.C13.branch_nodes",
+    "PyTrie.Props.C13.branch_valid",
+    "PyTrie.Props.C13.branch_sound",
+    "PyTrie.Props.C13.exist_iff",
+    "PyTrie.Props.C13.trie_nodes_exact",
+    "PyTrie.Props.C13.witness_members",
+    "PyTrie.Props.C13.witness_refusal",
+    "PyTrie.Props.C13.witness_sufficient",
+    "PyTrie.Props.C13.reachable_canonical",
+    "PyTrie.Bin.bgetD_of_path",
+    "PyTrie.Bin.bgetD_sound",
+    "PyTrie.Bin.parseNode_encNode",
+]
 RULE = ("binary tries built by generated histories over fixed-length and prefix-related key pools; for every pool key, its "
         "byte prefixes, extensions and bit-neighbours: get_branch (node list or InvalidKeyError), if_branch_valid on the honest "
         "branch with the true answer and with wrong answers, and on corrupted branches (each node dropped, a byte flipped in a "
